@@ -591,6 +591,9 @@ type c13Gen_ struct {
 	nid     int
 	sources []string // regular sources created so far (for reuse)
 	dirs    []string // directory leaves created so far
+	// preferOverlap: once a directory output exists, the next file leaves name a
+	// file inside it (the recorded finding C13-file-inside-directory-output)
+	preferOverlap bool
 	stats   map[string]int
 	rich    bool
 	// > 0 while generating a value that must match its type
@@ -711,6 +714,10 @@ func (g *c13Gen_) fileLeaf(t *c13Type) hx.JV {
 	c := g.r.Intn(40)
 	if !g.rich && c >= 20 {
 		c = 0
+	}
+	if g.preferOverlap && len(g.dirs) > 0 && t.k != 'p' {
+		g.count("leaf_inside_directory_output")
+		return hx.JStr(hx.Pick(g.r, g.dirs) + "/inner.txt")
 	}
 	switch {
 	case c < 20 && t.k == 'p' && g.r.Intn(2) == 0, c == 20:
@@ -953,7 +960,7 @@ func c13Gen(tier string, r *hx.Rng) {
 	}
 	stats := map[string]int{}
 	for i := 0; i < n; i++ {
-		g := &c13Gen_{r: r, stats: stats, rich: i%3 != 0}
+		g := &c13Gen_{r: r, stats: stats, rich: i%3 != 0, preferOverlap: i%10 == 4}
 		depth := 1 + r.Intn(3)
 		ms := g.members(1+r.Intn(4), depth)
 		mode := "s"
